@@ -28,8 +28,8 @@ M = [
   "            if self.__analyticalFeaturesDico[k] > idAF + 1:\n                self.__analyticalFeaturesDico[k] -= 1",
   "removeAnalyticalFeature does not shift the column right after the deleted one"),
  ("m02_keep_temporaries", "C01", "tracklib/core/track.py",
-  "                if af[0] == \"#\":\n                    self.removeAnalyticalFeature(af)",
-  "                if af[0] == \"#\" and af != \"#1\":\n                    self.removeAnalyticalFeature(af)",
+  "                    if af[0] == \"#\":\n                        self.removeAnalyticalFeature(af)",
+  "                    if af[0] == \"#\" and af != \"#1\":\n                        self.removeAnalyticalFeature(af)",
   "operate(str) leaves the second evaluator temporary listed"),
  ("m03_update_skips_last", "C01", "tracklib/core/track.py",
   "        if isinstance(new_val, list):\n            for i in range(self.size()):\n                self.getObs(i).features[idAF] = new_val[i]",
